@@ -226,7 +226,7 @@ pub fn load_findings() -> Vec<Finding> {
     let mut out = vec![];
     for line in text.lines() {
         let line = line.trim();
-        if line.is_empty() || line.starts_with('#') {
+        if line.is_empty() || line.starts_with('#') || line.starts_with("fixed:") {
             continue;
         }
         let v: Value = match serde_json::from_str(line) {
@@ -314,6 +314,7 @@ pub fn finish(report: Report, collector: &Collector) -> i32 {
     let mut seen: BTreeMap<(String, String), u64> = BTreeMap::new();
     let mut lines = 0;
     let dir = format!("{VERIF_DIR}/replay/{}", report.property);
+    let _ = std::fs::remove_dir_all(&dir);
     for v in &unmatched {
         let key = (v.site.clone(), v.kind.clone());
         let c = seen.entry(key).or_insert(0);
@@ -322,6 +323,9 @@ pub fn finish(report: Report, collector: &Collector) -> i32 {
             continue;
         }
         if lines >= 40 {
+            if std::env::var("VERIF_LIST_ALL").is_ok() {
+                println!("  site={} kind={} input={} :: {}", v.site, v.kind, v.input, v.detail.lines().next().unwrap_or(""));
+            }
             continue;
         }
         lines += 1;
